@@ -66,6 +66,27 @@ func c19GenRB(r *ev.Rand) (hx.RB, string) {
 func c19aRun(c *ev.Ctx) {
 	r := c.R
 	cs := c02Gen(r.Fork("history"), c.Thorough(), false)
+	if c.Index%10 == 3 {
+		// hundreds of attributes on one object (an index leaf more than half full), then deletes
+		// and replacements: thresholds of the rebalancing modes lie at fractions of a full node
+		cs = c02GenSweep(r.Fork("history"), c.Thorough())
+		hr := r.Fork("sweep-tail")
+		var names []string
+		for _, op := range cs.Script.Ops {
+			if op.K == "attr" {
+				names = append(names, op.Name)
+			}
+		}
+		for k := 0; k < 12 && len(names) > 0; k++ {
+			nm := names[hr.Intn(len(names))]
+			if hr.Chance(2, 3) {
+				cs.Script.Ops = append(cs.Script.Ops, hx.Op{K: "delattr", Path: "/obj0", Name: nm})
+			} else {
+				v := hx.ScalarOf(hr, "i64")
+				cs.Script.Ops = append(cs.Script.Ops, hx.Op{K: "attr", Path: "/obj0", Name: nm, Data: &v})
+			}
+		}
+	}
 	base := cs.Script
 	rb, tag := c19GenRB(r)
 	twin := &hx.Script{SB: base.SB, RB: rb}
